@@ -26,8 +26,6 @@ EM, IM = "partitura.io.exportmatch", "partitura.io.importmatch"
 
 
 def run(ctx):
-    from ..rules import generic as _G11
-    _G11.rule_F11(ctx, ['partitura.io.exportmatch', 'partitura.io.importmatch', 'partitura.io.matchfile_base'], 'C08')
     prog = ctx.prog
     w = world(ctx)
     # ---- F7c
